@@ -41,7 +41,7 @@ func drawPolicy(t *rapid.T) *appencryption.CryptoPolicy {
 	p.SystemKeyCacheMaxSize = rapid.SampledFrom(caps).Draw(t, "skCap")
 	p.IntermediateKeyCacheEvictionPolicy = rapid.SampledFrom(pols).Draw(t, "ikPolicy")
 	p.IntermediateKeyCacheMaxSize = rapid.SampledFrom(caps).Draw(t, "ikCap")
-	if p.CacheIntermediateKeys && rapid.IntRange(0, 99).Draw(t, "shared") < 35 {
+	if rapid.IntRange(0, 99).Draw(t, "shared") < 35 {
 		p.SharedIntermediateKeyCache = true
 	}
 	if rapid.IntRange(0, 99).Draw(t, "sessCache") < 30 {
